@@ -121,7 +121,12 @@ def run(ctx):
         keep_t = {"plot", "csv", "rank", "map", "impact"}
         cross = [c for c in cross if c["x"] in keep_x and c["t"] in keep_t]
         cross = rng.sample(cross, min(len(cross), 2200))
-        variants = rng.sample(variants, min(len(variants), 900))
+        # stratified by (variant, output type), so that every kind of variant meets every type in the quick tier too
+        buckets = {}
+        for c in variants:
+            buckets.setdefault((c["v"], c["t"]), []).append(c)
+        per = max(1, 1100 // len(buckets))
+        variants = [c for key in sorted(buckets) for c in rng.sample(buckets[key], min(len(buckets[key]), per))]
         kinds = ["full", "missing-slice"]
     else:
         kinds = ["full", "missing-slice", "single-time", "single-location"]
